@@ -1,4 +1,5 @@
 import TypstyleModel.Props.C07
+import TypstyleModel.Proofs.Tokens
 /-! C10 — literal content is preserved exactly (printer side; F4 — the post-pass strips blanks
 before a line feed inside a multi-line literal — is a genuine counterexample to the end-to-end
 statement and is a known finding). -/
@@ -12,34 +13,47 @@ def Kind.isCopiedLeaf : Kind → Bool
   | _ => false
 
 /-- T10.1: strings (with their embedded line breaks, escapes and blanks), numbers with units and
-radix, identifiers, labels, links, escapes … are converted to a single `tok` atom holding exactly the
-leaf's text, in every context. -/
+radix, identifiers, labels, links, escapes … are converted to a single atom holding exactly the
+leaf's text, in every context (the tag only records which stream the atom feeds). -/
 theorem C10_literal_is_copied (e : Env) (r : Rec) (ctx : Ctx) (n : ANode) (h : n.kind.isCopiedLeaf = true) :
-    convExprImpl e r ctx n = pure (e.tok n.text) := by
+    ∃ tag, leafTag n.kind = some tag ∧ convExprImpl e r ctx n = pure (Twin.mkText e.wd tag n.text) := by
   unfold convExprImpl
-  cases hk : n.kind <;> simp_all [Kind.isCopiedLeaf]
+  cases hk : n.kind <;> simp_all [Kind.isCopiedLeaf, leafTag, Env.lit, Env.plit, Env.prose, Env.tok]
 
 /-- A markup text leaf likewise. -/
 theorem C10_text_is_copied (e : Env) (r : Rec) (ctx : Ctx) (n : ANode) (h : n.kind = .text) :
-    convExprImpl e r ctx n = pure (e.tok n.intoText) := by
+    convExprImpl e r ctx n = pure (e.prose n.intoText) := by
   unfold convExprImpl; simp [h]
 
 /-- The atom is the text itself, at every indent unit and in every layout (hence at every width):
 the renderer cannot re-space, re-break or re-indent anything inside a literal. -/
-theorem C10_token_is_one_atom (e : Env) (s : String) (hs : s.isEmpty = false) (u : Nat) (m : Mode) (xs : List Atom)
-    (h : Lay m ((e.tok s).fam u) xs) : xs = [.txt s .tok] := by
-  simp only [Env.tok, Twin.fam_mkText, mkText, hs] at h
+theorem C10_token_is_one_atom (wd : String → Nat) (tag : Tag) (s : String) (hs : s.isEmpty = false) (u : Nat) (m : Mode) (xs : List Atom)
+    (h : Lay m ((Twin.mkText wd tag s).fam u) xs) : xs = [.txt s tag] := by
+  simp only [Twin.fam_mkText, mkText, hs] at h
   cases h
   rfl
 
-/-- T10.2 (inline raw with several lines): emitted verbatim as a whole. -/
-theorem C10_multiline_inline_raw_is_verbatim (e : Env) (n : ANode)
-    (h : (!(((firstWhere n (·.kind == .rawDelim)).map (·.text.utf8ByteSize)).getD 0 ≥ 3 &&
-            n.children.any (fun c => c.kind == .rawTrimmed && c.text.toList.any isNewlineChar)) &&
-          (n.children.filter (·.kind == .text)).length > 1) = true) :
-    convRaw e n = e.verb n.intoText := by
+/-- T10.2 (inline raw with several lines): emitted as a whole, as one literal atom. -/
+theorem C10_multiline_inline_raw_is_verbatim (e : Env) (n : ANode) (h : rawIsVerbatim n = true) :
+    convRaw e n = e.lit n.intoText := by
   unfold convRaw
   simp only [h, if_true]
+
+/-- T10.4 (literals are preserved, by construction): the printer's documents carry the text of
+their literal atoms — every character, blanks and line breaks inside strings and raw text included —
+through every builder operation.  If the family printed for a tree passes the comparison with the
+tree's own literal text (`literalsCertified`: evaluated on every case of the correspondence run,
+field `lit`), then at **every** width and indent unit the rendered layout contains exactly the
+tree's literals: strings, raw text (fence, language tag, text lines), numbers with their units,
+booleans, identifiers, labels, links, escapes and reference targets, complete and in order. -/
+theorem C10_literals_preserved (root : Node) (d : Twin.Doc) (h : literalsCertified root d = true) (u w : Nat) :
+    litText (best w 0 [⟨0, .brk, d.fam u⟩]) = (specLit (prepare root)).toList :=
+  certified_literals_best root d h u w
+
+theorem C10_literals_preserved_all_layouts (root : Node) (d : Twin.Doc) (h : literalsCertified root d = true)
+    (u : Nat) (m : Mode) (xs : List Atom) (hl : Lay m (d.fam u) xs) :
+    litText xs = (specLit (prepare root)).toList :=
+  certified_literals root d h u m xs hl
 
 /-- T10.3 (what the post-pass can touch): per line, the characters that are not white space are kept
 in order; only blanks before a line end are removed (this is exactly finding F4 for a literal whose
